@@ -21,10 +21,11 @@ def model_case(scen, obs=None):
     """The `cfg`/`script` part of a sys_replay request for this scenario."""
     ex = scen["executor"]
     calls = []
+    rej = rejected_of(scen, obs=obs)
     for c in scen["calls"]:
         rd = c.get("resource_dict")
         calls.append({
-            "deps": deps_of(c),
+            "deps": deps_of(c, rej),
             "cores": (rd or {}).get("cores"),
             "threads": (rd or {}).get("threads_per_core"),
             "hasRes": bool(rd),
@@ -60,13 +61,30 @@ def _walk(d, out):
     # futures inside tuples / dicts are not looked at by the resolver (only lists)
 
 
-def deps_of(call):
+def deps_of(call, rejected=()):
+    """Futures among the arguments, traversal order.  A reference to a submission that was rejected
+    (submit raised) is not a future: the scenario runner passes None for it."""
     out = []
     for d in call.get("args", []):
         _walk(d, out)
     for d in call.get("kwargs", {}).values():
         _walk(d, out)
-    return out
+    return [j for j in out if j not in rejected]
+
+
+def rejected_of(scen, obs=None, events=None):
+    """Submission indices whose submit() raised."""
+    rej = set()
+    if events is not None:
+        rej |= {ev["i"] for ev in events if ev.get("op") == "submit_raised"}
+    if obs is not None:
+        k = 0
+        for c, rec in zip(scen["script"], obs.get("cmds", [])):
+            if c["c"] == "submit":
+                if rec.get("ok") is False:
+                    rej.add(k)
+                k += 1
+    return rej
 
 
 def plain_sum(call):
@@ -90,6 +108,7 @@ def map_events(scen, events):
     calls = scen["calls"]
     labels, where = [], []
     qrole = {}
+    rej = rejected_of(scen, events=events)
 
     def emit(ev, l, **kw):
         d = {"l": l}
@@ -174,7 +193,7 @@ def map_events(scen, events):
                     res["cur"] = ev["i"]
                     res["reads"] = 0
                     res["park"] = False
-                    nd = len(deps_of(calls[ev["i"]])) if ev["i"] is not None else 0
+                    nd = len(deps_of(calls[ev["i"]], rej)) if ev["i"] is not None else 0
                     res["need"] = nd
                     res["mode"] = "inspect"
                     if nd == 0:
